@@ -3,6 +3,7 @@ package main
 // Evaluation of spec expressions into SMT terms over a program state.
 
 import (
+	"go/token"
 	"sort"
 	"fmt"
 	"go/constant"
@@ -182,6 +183,37 @@ func (env *SpecEnv) lookupLocal(name string) *Val {
 				if phi.Comment == "rangeindex" {
 					return e.val(fr, env.cur, phi)
 				}
+			}
+			// the same loop written with an explicit counter (for i := 0; i < n; i++): at the header the
+			// counter is the number of elements processed, i.e. one more than the index last processed
+			var ind *ssa.Phi
+			nind := 0
+			for _, in := range at.Instrs {
+				phi, ok := in.(*ssa.Phi)
+				if !ok {
+					break
+				}
+				if len(phi.Edges) != 2 {
+					continue
+				}
+				if b, isInt := phi.Type().Underlying().(*types.Basic); !isInt || b.Info()&types.IsInteger == 0 {
+					continue
+				}
+				for k := 0; k < 2; k++ {
+					c, isC := phi.Edges[k].(*ssa.Const)
+					bo, isB := phi.Edges[1-k].(*ssa.BinOp)
+					if !isC || !isB || c.Value == nil || c.Value.ExactString() != "0" || bo.Op != token.ADD || bo.X != ssa.Value(phi) {
+						continue
+					}
+					if one, isOne := bo.Y.(*ssa.Const); isOne && one.Value != nil && one.Value.ExactString() == "1" {
+						ind = phi
+						nind++
+					}
+				}
+			}
+			if nind == 1 {
+				v := e.val(fr, env.cur, ind)
+				return mathInt(app("-", v.term(), "1"))
 			}
 		}
 		// latest dominating DebugRef
